@@ -249,7 +249,7 @@ impl<T: Flt> Tracked<T> {
             stale_reads(cfg, obs, viols);
         }
         // partial calls pad with zeros: the instants read off the padding are not instants
-        if matches!(obs.op, Op::PP(_) | Op::WP(_)) {
+        if matches!(obs.op, Op::PP(_) | Op::WP(_) | Op::PPM(_, _, _)) {
             self.trk.last_tau = None;
             self.trk.seen_valid = false;
             self.trk.instants = false;
